@@ -677,7 +677,10 @@ pub fn selfcheck<P: Property>(p: &P, seed: u64, n: u64, child: bool) -> Result<V
 /// Development aid: evaluate `n` cases and tally every violation class (no early stop, no files).
 pub fn survey<P: Property>(p: &P, seed: u64, n: u64) {
     let policy = allowed_ids(&load_known_findings(), p.id());
-    let next = AtomicU64::new(0);
+    let first: u64 = std::env::var("VERIF_FIRST_RUN").ok().and_then(|s| s.parse().ok()).unwrap_or(0);
+    let trace_runs = std::env::var("VERIF_TRACE_RUNS").is_ok();
+    let next = AtomicU64::new(first);
+    let n = first + n;
     let tally: Mutex<BTreeMap<String, (u64, u64, String)>> = Mutex::new(BTreeMap::new());
     std::thread::scope(|s| {
         for _ in 0..workers() {
@@ -685,6 +688,9 @@ pub fn survey<P: Property>(p: &P, seed: u64, n: u64) {
                 let i = next.fetch_add(1, Ordering::SeqCst);
                 if i >= n {
                     break;
+                }
+                if trace_runs {
+                    eprintln!("run {i}");
                 }
                 let case = p.generate(rng::mix(seed, i), i);
                 let ev = judge(p, &case, &policy);
